@@ -54,6 +54,12 @@ CLAIMED["C05"] = (
     "Trusted: lowering + typed runtime + symnp shim (validated against the compiled module per run), z3, numpy/msgpack in the E-class part. Outside: floating-point fixed-point/interval-quantisation arithmetic on symbolic floats (menu values only), arrays longer than the bound, StringArrayEncoding internals symbolically. Known finding: FixedPointEncoding.encode wraps silently.",
     "DESIGN.md §4 C05")
 
+CLAIMED["C08"] = (
+    "KX: the DP kernels of pairwise.pyx/tracetable.pyx lowered from source, if-converted into one formula per table and compared by z3 with the maximum over all enumerated alignments (symbolic codes, fully symbolic matrix and gap penalties); follow_trace executed with forking on the symbolic trace table; wrapper end-to-end by solver-driven case split against brute force",
+    "Bounded model checking of optimality. For every shape up to 3x2/2x3 (thorough 3x3), alphabet size 2 (3), linear and affine penalties, global / semi-global / local: the score computed by the real kernel text equals the maximum over ALL alignments of the documented model for EVERY int matrix with entries in +-2^20 and every non-positive gap penalty (open < extend included). Traceback: every alignment follow_trace emits from the symbolic trace table is valid, recomputes to that score, non-empty results are distinct and at most max_number. E-class: compiled align_optimal on all small inputs of a menu (asymmetric/zero/negative matrices, 7 gap settings, uint8/uint16 alphabets).",
+    "Trusted: lowering + if-conversion + typed runtime (validated per run: lowered kernels + transcribed initialisation give the compiled align_optimal's score on concrete vectors), the enumeration oracle, z3. The wrapper's table initialisation and trace post-processing are transcribed (stubs) in the KX part and exercised for real only in the E-class part (i.e. on the compiled binary). Outside: sequences longer than 3, |A| > 3, code widths 32/64, matrices beyond +-2^20.",
+    "DESIGN.md §4 C08")
+
 NOT_APPLICABLE = {
     "C15": "float results of numpy/LAPACK (linalg solves, trigonometry, argmin over float images): no integer/string logic in front of the C boundary that a solver could reason about; an abstraction over the reals would verify a model of numpy, not the code (DESIGN §6)",
     "C16": "optimality/properness come from np.linalg.svd/det (LAPACK behind FFI) on float32 data; no encodable source; z3 terms cannot pass astype(float32) (DESIGN §6)",
